@@ -1,7 +1,7 @@
 #!/bin/bash
-# usage: confirm_seed.sh <Cxx> <outdir-of-agent>   -- confirms a seeded change in a scratch worktree and stores it under /verif/seeded/<id>/
+# usage: confirm_seed.sh <Cxx> <outdir-of-agent> [<name under /verif/seeded, default Cxx>]   -- confirms a seeded change in a scratch worktree and stores it under /verif/seeded/<id>/
 set -u
-id=$1; src=${2:-/tmp/wt-out/$id}
+id=$1; src=${2:-/tmp/wt-out/$id}; dst=${3:-$id}
 export GOFLAGS=-mod=mod GOPROXY=off GOSUMDB=off GOTOOLCHAIN=local
 wt=/tmp/wtc/$id
 rm -rf $wt; git -C /repo worktree prune; mkdir -p /tmp/wtc
@@ -19,15 +19,15 @@ d1=$(run_demo)
 git -C /repo worktree remove --force $wt
 echo "$id: demo_unchanged_exit=$d0 build=$b baseline=$t demo_changed_exit=$d1"
 if [ "$d0" = 0 ] && [ "$b" = 0 ] && [ "$t" = 0 ] && [ "$d1" != 0 ]; then
-  mkdir -p /verif/seeded/$id && rm -rf /verif/seeded/$id/demo && cp -r $src/demo /verif/seeded/$id/demo && cp $src/patch.diff /verif/seeded/$id/patch.diff
-  python3 - "$id" "$src" "$d0" "$b" "$t" "$d1" <<'PY'
+  mkdir -p /verif/seeded/$dst && rm -rf /verif/seeded/$dst/demo && cp -r $src/demo /verif/seeded/$dst/demo && cp $src/patch.diff /verif/seeded/$dst/patch.diff
+  python3 - "$id" "$src" "$d0" "$b" "$t" "$d1" "$dst" <<'PY'
 import json,sys
-id,src,d0,b,t,d1=sys.argv[1:]
+id,src,d0,b,t,d1,dst=sys.argv[1:]
 try: m=json.load(open(src+'/meta.json'))
 except Exception as e: m={'property':id,'summary':'(meta.json unreadable: %s)'%e}
 m['confirmed_by_main']={'demo_on_unchanged_tree_exit':int(d0),'build_with_change_exit':int(b),'baseline_158_with_change_exit':int(t),'demo_with_change_exit':int(d1),
   'how':'bin/confirm_seed.sh in a scratch worktree of /repo HEAD (fix commits + hook commit), removed afterwards'}
-json.dump(m,open('/verif/seeded/%s/meta.json'%id,'w'),indent=1)
+json.dump(m,open('/verif/seeded/%s/meta.json'%dst,'w'),indent=1)
 PY
   echo "$id: CONFIRMED and stored"
 else
